@@ -5,6 +5,7 @@ import copy
 
 from hypothesis import strategies as st
 
+from .. import budget
 from ..harness import Discard, Inconclusive, Sub, Violation
 from ..oracles import cover as C
 
@@ -30,6 +31,12 @@ META = {
         "Result.__eq__ (dataclass) compares solution, objective, iterations, evaluations, status",
     ],
 }
+
+# Deterministic work limit per solve_exact_cover call (DESIGN §2.4): JUMP|BRANCH events inside solvor/dlx.py.
+# Maximum observed on /repo over the calibration runs (quick seeds 1,2,3,7,42 + one thorough run): see ctx.size
+# "steps" in the evidence (2.0e3 quick, see notes/build/C07.md for thorough); the limit is > 100x that.  A corrupted link ring that loops forever trips any
+# finite limit; such a case is inconclusive ("step-budget"), never an alarm, because C07 does not claim termination.
+STEP_LIMIT = 2_000_000
 
 KS = [None, 2, 1, 5, None, None]
 MAX_ITERS = ["default", "abs", "exact", "minus", "default", "default", "default", "abs"]
@@ -254,8 +261,16 @@ def reference(rows_m, prim, sec):
 
 # ----------------------------------------------------------------------------- main sub-check
 def run(desc, ctx):
-    from solvor.dlx import solve_exact_cover
+    from solvor import dlx
     from solvor.types import Result
+
+    budget.instrument(dlx)
+
+    def solve_exact_cover(*a, **k):
+        with budget.steps(STEP_LIMIT) as s:
+            r = dlx.solve_exact_cover(*a, **k)
+        ctx.size("steps", s.count)
+        return r
 
     ncols, rows, sec = desc["ncols"], desc["rows"], list(desc["sec"])
     if not rows or any(len(r) != ncols for r in rows) or ncols < 1:
